@@ -95,6 +95,8 @@ mod length_delimited;
 mod listener_select;
 mod negotiated;
 mod protocol;
+#[cfg(libp2p_verif)]
+pub use protocol::verif_hooks;
 
 pub use self::{
     dialer_select::{DialerSelectFuture, dialer_select_proto},
